@@ -342,60 +342,87 @@ def chooseEnumTarget (enumMap tmap : List (S × S)) (name : S) : S :=
 def mergeTransformer (tmap m : List (S × S)) : List (S × S) :=
   (tmap.filter (fun (k, _) => !m.any (·.1 == k))) ++ m
 
+/-- what one target name of an enum mapping means: an action (`@error` needs an error result), or a member of the target enum -/
+def enumAction (cx : Ctx) (path : List PathElem) (tm : List ConstDecl) (targetName : S) : M EnumAction := do
+  if Settings.isEnumAction targetName then
+    if targetName == "@ignore".toList then pure .ignore
+    else if targetName == "@panic".toList then pure .panic
+    else if targetName == "@error".toList then
+      if !(← returnError cx) then fail .enumErrorNotAllowed
+      pure (.error (wrapOf cx path))
+    else fail .enumInvalidTarget
+  else match tm.find? (·.name == targetName) with
+    | some td => pure (.member targetName td.val)
+    | none => fail .enumTargetMissing
+
+/-- what one `enum:transform regex PATTERN REPLACEMENT` maps: every source member whose replaced name is a target member -/
+def transformerPairs (c : Converter) (pat repl : S) (tm : List ConstDecl) : List ConstDecl → Except Diag (List (S × S))
+  | [] => .ok []
+  | sd :: rest =>
+    match c.orc.rxReplace pat repl sd.name with
+    | none => .error .enumTransformerError
+    | some tk =>
+      match transformerPairs c pat repl tm rest with
+      | .error e => .error e
+      | .ok m => .ok (if tm.any (·.name == tk) then (sd.name, tk) :: m else m)
+
+/-- all transformers of the method, merged in source order (a later one overrides an earlier one) -/
+def enumTransformers (c : Converter) (sm tm : List ConstDecl) : List (S × S) → List (S × S) → Except Diag (List (S × S))
+  | [], tmap => .ok tmap
+  | (name, cfgS) :: rest, tmap =>
+    if name != "regex".toList then .error (.unsupported "custom transformer")
+    else match splitOn ' ' cfgS with
+      | [pat, repl] =>
+        match transformerPairs c pat repl tm sm with
+        | .error e => .error e
+        | .ok m =>
+          -- (an invalid pattern with an empty source list cannot be told apart; members are never empty)
+          if m.isEmpty then .error .enumTransformerEmpty
+          else enumTransformers c sm tm rest (mergeTransformer tmap m)
+      | _ => .error .enumTransformerError
+
+/-- members sharing a source value must agree: on the target VALUE when both targets are members, else on the target name -/
+def enumMismatch (tm : List ConstDecl) (targetName prevTarget : S) : Bool :=
+  let valOf (n : S) : Option ConstVal := (tm.find? (·.name == n)).map (·.val)
+  if !Settings.isEnumAction targetName && !Settings.isEnumAction prevTarget then valOf prevTarget != valOf targetName
+  else targetName != prevTarget
+
+/-- the loop state of `Enum.Build`: emitted cases, source value ↦ target name of the emitted case, enum:map keys not met yet -/
+structure EnumAcc where
+  cases : List (S × ConstVal × EnumAction) := []
+  seenVals : List (ConstVal × S) := []
+  remaining : List S := []
+
+/-- one case per distinct source VALUE, in member order; members sharing a value must agree on the target -/
+def enumCases (cx : Ctx) (path : List PathElem) (tm : List ConstDecl) (tmap : List (S × S)) : List ConstDecl → EnumAcc → M EnumAcc
+  | [], acc => pure acc
+  | sd :: rest, acc => do
+    let remaining := acc.remaining.filter (· != sd.name)
+    let targetName := chooseEnumTarget cx.cfg.enumMap tmap sd.name
+    let act ← enumAction cx path tm targetName
+    match acc.seenVals.find? (fun (v, _) => v == sd.val) with
+    | some (_, prevTarget) =>
+      if enumMismatch tm targetName prevTarget then fail .enumMismatch
+      else enumCases cx path tm tmap rest { acc with remaining := remaining }
+    | none =>
+      enumCases cx path tm tmap rest
+        { cases := acc.cases ++ [(sd.name, sd.val, act)], seenVals := acc.seenVals ++ [(sd.val, targetName)], remaining := remaining }
+
 /-- the enum mapping of one position (builder/enum.go Enum.Build without the target variable) -/
 def enumPlan (c : Converter) (cx : Ctx) (s t : Ty) (path : List PathElem) : M Conv := do
   let some sm := enumMembers c cx.cfg.common s | fail (.unsupported "enum source")
   let some tm := enumMembers c cx.cfg.common t | fail (.unsupported "enum target")
   let defined : List S := if cx.fieldsTarget == t then cx.cfg.enumMap.map (·.1) else []
-  -- transformers
-  let mut tmap : List (S × S) := []
-  for (name, cfgS) in cx.cfg.transformers do
-    if name != "regex".toList then fail (.unsupported "custom transformer")
-    match splitOn ' ' cfgS with
-    | [pat, repl] =>
-      let mut m : List (S × S) := []
-      for sd in sm do
-        match c.orc.rxReplace pat repl sd.name with
-        | none => fail .enumTransformerError
-        | some tk => if tm.any (·.name == tk) then m := m ++ [(sd.name, tk)]
-      if m.isEmpty then
-        -- (an invalid pattern with an empty source list cannot be told apart; members are never empty)
-        fail .enumTransformerEmpty
-      tmap := mergeTransformer tmap m
-    | _ => fail .enumTransformerError
-  let action (targetName : S) : M EnumAction := do
-    if Settings.isEnumAction targetName then
-      if targetName == "@ignore".toList then pure .ignore
-      else if targetName == "@panic".toList then pure .panic
-      else if targetName == "@error".toList then
-        if !(← returnError cx) then fail .enumErrorNotAllowed
-        pure (.error (wrapOf cx path))
-      else fail .enumInvalidTarget
-    else match tm.find? (·.name == targetName) with
-      | some td => pure (.member targetName td.val)
-      | none => fail .enumTargetMissing
-  let valOf (ms : List ConstDecl) (n : S) : Option ConstVal := (ms.find? (·.name == n)).map (·.val)
-  let mut cases : List (S × ConstVal × EnumAction) := []
-  let mut seenVals : List (ConstVal × S) := []      -- source value ↦ target name of the emitted case
-  let mut remaining := defined
-  for sd in sm do       -- members are sorted by name
-    remaining := remaining.filter (· != sd.name)
-    let targetName := chooseEnumTarget cx.cfg.enumMap tmap sd.name
-    let act ← action targetName
-    match seenVals.find? (fun (v, _) => v == sd.val) with
-    | some (_, prevTarget) =>
-      let mismatch :=
-        if !Settings.isEnumAction targetName && !Settings.isEnumAction prevTarget then valOf tm prevTarget != valOf tm targetName
-        else targetName != prevTarget
-      if mismatch then fail .enumMismatch
-    | none =>
-      seenVals := seenVals ++ [(sd.val, targetName)]
-      cases := cases ++ [(sd.name, sd.val, act)]
+  let tmap ← (match enumTransformers c sm tm cx.cfg.transformers [] with
+    | .ok m => pure m
+    | .error e => fail e : M (List (S × S)))
+  -- members are sorted by name
+  let acc ← enumCases cx path tm tmap sm { remaining := defined }
   let unknown := cx.cfg.common.enumUnknown
   if unknown.isEmpty then fail .enumUnknownMissing
-  let dflt ← action unknown
-  if !remaining.isEmpty then fail .enumKeyMissing
-  pure (.enumc cases dflt)
+  let dflt ← enumAction cx path tm unknown
+  if !acc.remaining.isEmpty then fail .enumKeyMissing
+  pure (.enumc acc.cases dflt)
 
 /-- how the walk along a source path ends (builder/struct.go mapField) -/
 structure Mapped where
